@@ -3,6 +3,7 @@ CONSTANTS
   AllocFactor = 64
   AllocSlack = 262144
   Reps = 4
+  RecReps = 4
 INVARIANTS TypeOK
 POSTCONDITION NoDeviation
 CHECK_DEADLOCK TRUE
